@@ -26,7 +26,7 @@ Definition show_decoded (r : result decoded) : list N :=
   end.
 
 Definition handle (line : list N) : list N :=
-  match fields line with
+  match fields_fast line with
   | [[100;101;99]; h] => show_decoded (decode (bytes_of_hex h))
   | [[100;101;99]] => show_decoded (decode [])
   | [[101;110;99]; k; p; sid; a; b; c; d; e; f; g; h; i; j; k2; l] =>
